@@ -7,7 +7,7 @@ Three things live here (core Lean only, the driver links against this file):
   declarations, assignments to a whole signal / static slice / bit / dynamic bit / dynamic part /
   dynamic slice (nested selections allowed), reads of the same, operators,
   `IF (c) {…}`, `ELSE {…}`, the macro `ELSEIF (c) {…}` and the two-scope form `ELSE IF (c) {…}`,
-  arbitrary nesting, `BitDefault` / `UIntDefault` declarations;
+  arbitrary nesting, `BitDefault` declarations (`UIntDefault` asserts in the frontend and is rejected by the model, too);
 * `run` — the **specification**: an ordinary sequential interpreter over concrete values
   (a branch that is not taken is *skipped*);
 * `build` — the **model of the code as written**: it follows, call by call, what the frontend does
@@ -19,8 +19,8 @@ Three things live here (core Lean only, the driver links against this file):
   (`frontend/Bit.cpp:276-297`, `frontend/BitVector.cpp:398-462`: the `scope->getId() > m_initialScopeId`
   test and `mux(fullCondition; old, new)`), `BitVectorSlice::assign`, `BitVectorSliceStatic/Dynamic::
   readPort/assignLocal` (`frontend/BitVectorSlice.cpp:25-181`: Rewire read-modify-write, Mux-of-Rewires
-  for dynamic offsets), `Node_Default` (`frontend/Bit.cpp:147-156`, `hlim/postprocessing/
-  DefaultValueResolution.cpp`), and produces a netlist (`Array Node`, every node refers to older nodes);
+  for dynamic offsets), `Node_Default` (`frontend/Bit.cpp:147-156`; `hlim/postprocessing/
+  DefaultValueResolution.cpp` is represented by its outcome on the accepted programs, see `stepDefault`), and produces a netlist (`Array Node`, every node refers to older nodes);
   `evalNodes` evaluates the netlist for one input valuation.
 
 Node identity matters (the destructor compares node ports), therefore the netlist keeps one entry per
